@@ -221,7 +221,9 @@ def kDos (nir nb nf nc : Nat) : List Nat := (dosLoop nir nb nf nc).all
 
 Canonical form: file | external-linkage functions that reach the loop | directive | loop bound and `if` clause with
 the parameters of the nearest external-linkage callers named by position (`P<k>`; static helpers are inlined along every
-call chain, single-assignment locals substituted, products folded and sorted; loop variable `V`, macros resolved) | other clauses |
+call chain, single-assignment locals substituted, products folded and sorted; loop variable `V`, macros resolved;
+`collapse(n)` over a perfect nest counts as the flattened loop over the product of the bounds; `schedule(...)` is not part of
+the key; the `if` entry is the conjunction of the OpenMP `if` clause and the plain-flag C `if (flag)` blocks enclosing the pragma) | other clauses |
 non-private function-scope locals written inside the parallel region (a race: must be empty) | shared objects written
 inside the region, followed through calls into helpers: pointer parameters by position, heap temporaries by element
 type and element count.  Names of static functions and of locals, `private(...)` lists versus declarations inside the
@@ -229,13 +231,13 @@ loop body, statement order and index expressions are *not* part of it (index exp
 sentinel/guard footprint runs). -/
 def inventory : List String := [
   "c/_phonopy.cpp|py_thm_integration_weight_at_omegas|parallel for|V < P1.shape(0)|if()||shared-locals[]|writes[param:0]",
-  "c/derivative_dynmat.c|ddm_get_derivative_dynmat_at_q,phpy_get_derivative_dynmat_at_q,py_get_derivative_dynmat|parallel for|V < P1 * P1|if()||shared-locals[]|writes[param:0]",
-  "c/dynmat.c|dym_dynamical_matrices_with_dd_openmp_over_qpoints,dym_get_dynamical_matrix_at_q,phpy_dynamical_matrices_with_dd_openmp_over_qpoints,py_get_dynamical_matrices_with_dd_openmp_over_qpoints|parallel for|V < P1 * P1|if()||shared-locals[]|writes[param:0]",
+  "c/derivative_dynmat.c|ddm_get_derivative_dynmat_at_q,phpy_get_derivative_dynmat_at_q,py_get_derivative_dynmat|parallel for|V < P1 * P1|if(P17)||shared-locals[]|writes[param:0]",
+  "c/dynmat.c|dym_dynamical_matrices_with_dd_openmp_over_qpoints,dym_get_dynamical_matrix_at_q,phpy_dynamical_matrices_with_dd_openmp_over_qpoints,py_get_dynamical_matrices_with_dd_openmp_over_qpoints|parallel for|V < P1 * P1|if(P11)||shared-locals[]|writes[param:0]",
   "c/dynmat.c|dym_dynamical_matrices_with_dd_openmp_over_qpoints,dym_get_recip_dipole_dipole,dym_get_recip_dipole_dipole_q0,phpy_dynamical_matrices_with_dd_openmp_over_qpoints,phpy_get_recip_dipole_dipole,phpy_get_recip_dipole_dipole_q0,py_get_dynamical_matrices_with_dd_openmp_over_qpoints,py_get_recip_dipole_dipole,py_get_recip_dipole_dipole_q0|parallel for|V < P2/P3|if(P13/P9)||shared-locals[]|writes[temp:double[3][3]:P2/P3]",
-  "c/dynmat.c|dym_dynamical_matrices_with_dd_openmp_over_qpoints,dym_get_recip_dipole_dipole,dym_get_recip_dipole_dipole_q0,phpy_dynamical_matrices_with_dd_openmp_over_qpoints,phpy_get_recip_dipole_dipole,phpy_get_recip_dipole_dipole_q0,py_get_dynamical_matrices_with_dd_openmp_over_qpoints,py_get_recip_dipole_dipole,py_get_recip_dipole_dipole_q0|parallel for|V < P3 * P3/P4 * P4|if()||shared-locals[]|writes[param:0,temp:double[2]:9 * P3 * P3]",
+  "c/dynmat.c|dym_dynamical_matrices_with_dd_openmp_over_qpoints,dym_get_recip_dipole_dipole,dym_get_recip_dipole_dipole_q0,phpy_dynamical_matrices_with_dd_openmp_over_qpoints,phpy_get_recip_dipole_dipole,phpy_get_recip_dipole_dipole_q0,py_get_dynamical_matrices_with_dd_openmp_over_qpoints,py_get_recip_dipole_dipole,py_get_recip_dipole_dipole_q0|parallel for|V < P3 * P3/P4 * P4|if(P13/P9)||shared-locals[]|writes[param:0,temp:double[2]:9 * P3 * P3]",
   "c/dynmat.c|dym_dynamical_matrices_with_dd_openmp_over_qpoints,phpy_dynamical_matrices_with_dd_openmp_over_qpoints,py_get_dynamical_matrices_with_dd_openmp_over_qpoints|parallel for|V < P2|if()||shared-locals[]|writes[param:0]",
-  "c/dynmat.c|dym_dynamical_matrices_with_dd_openmp_over_qpoints,phpy_dynamical_matrices_with_dd_openmp_over_qpoints,py_get_dynamical_matrices_with_dd_openmp_over_qpoints|parallel for|V < P2|if()||shared-locals[]|writes[param:0]",
-  "c/dynmat.c|dym_transform_dynmat_to_fc,phpy_transform_dynmat_to_fc,py_transform_dynmat_to_fc|parallel for|V < P8 * P9|if()||shared-locals[]|writes[param:0]",
+  "c/dynmat.c|dym_dynamical_matrices_with_dd_openmp_over_qpoints,phpy_dynamical_matrices_with_dd_openmp_over_qpoints,py_get_dynamical_matrices_with_dd_openmp_over_qpoints|parallel for|V < P2|if(P21)||shared-locals[]|writes[param:0]",
+  "c/dynmat.c|dym_transform_dynmat_to_fc,phpy_transform_dynmat_to_fc,py_transform_dynmat_to_fc|parallel for|V < P8 * P9|if(P10)||shared-locals[]|writes[param:0]",
   "c/phonopy.c|phpy_get_tetrahedra_frequenies,py_get_tetrahedra_frequenies|parallel for|V < 96 * P7|if()||shared-locals[]|writes[param:0]",
   "c/phonopy.c|phpy_get_thermal_properties,py_get_thermal_properties|parallel for|V < P5|if()||shared-locals[]|writes[temp:double:3 * P4 * P5]",
   "c/phonopy.c|phpy_tetrahedron_method_dos,py_tetrahedron_method_dos|parallel for|V < P9|if()||shared-locals[]|writes[param:0]"
